@@ -137,9 +137,11 @@ func (p *pod) GetQOSClass() v1.PodQOSClass {
 }
 
 func (p *pod) goFetchPodResources(ch <-chan *podresapi.PodResources) {
+	// Set up the channels before starting the fetch: a reader that comes
+	// before the goroutine gets to run must find waitResCh and wait for it.
+	p.podResCh = ch
+	p.waitResCh = make(chan struct{})
 	go func() {
-		p.podResCh = ch
-		p.waitResCh = make(chan struct{})
 		defer close(p.waitResCh)
 
 		if p.podResCh != nil {
